@@ -41,6 +41,35 @@ let run_mask (f : string array) : string =
   let k = match bytes_of_hex f.(4) with [a;b;c;d] -> (((a,b),c),d) | _ -> failwith "key" in
   hex_of_bytes (mask_fast32 p k (bytes_of_hex f.(5)))
 
+(* FS id pre ops rds wrs fls : FrameSocket ops  r:<max|none> | w:<flags>:<opc>:<mask>:<hex> | s:<flags>:<opc>:<mask>:<hex> | f *)
+let fs_op_of (s : string) : fs_op =
+  match split ':' s with
+  | ["r"; m] -> FsRead (opt_n m)
+  | ["f"] -> FsFlush
+  | ["w"; fl; o; m; h] -> FsWrite { f_hdr = header_of_fields fl o m; f_payload = bytes_of_hex h }
+  | ["s"; fl; o; m; h] -> FsSend { f_hdr = header_of_fields fl o m; f_payload = bytes_of_hex h }
+  | _ -> failwith ("bad fs op " ^ s)
+
+let run_framesocket (f : string array) : string =
+  let pre = bytes_of_hex f.(2) in
+  let ops = List.map fs_op_of (list_of_field f.(3)) in
+  let w = { w_rds = List.map rd_of_string (list_of_field f.(4)); w_wrs = List.map wr_of_string (list_of_field f.(5));
+            w_fls = List.map fl_of_string (list_of_field f.(6)); w_keys = []; w_log = [] } in
+  let ((results, _c), w') = fs_run_ops (codec_new pre) ops w in
+  let buf = Buffer.create 256 in
+  let pos = ref 0 and rest = ref w'.w_log in
+  List.iteri (fun i (r, upto) ->
+      let upto = int_of_n upto in
+      let evs = take_list (upto - !pos) !rest in
+      rest := drop_list (upto - !pos) !rest; pos := upto;
+      if i > 0 then Buffer.add_string buf " | ";
+      Buffer.add_string buf (match r with
+          | FsFrame r -> res_s (function Some fr -> "ok:F:" ^ frame_s fr | None -> "ok:none") r
+          | FsUnit r -> res_s (fun _ -> "ok") r);
+      List.iter (fun e -> match event_s e with Some s -> Buffer.add_char buf ' '; Buffer.add_string buf s | None -> ()) evs)
+    results;
+  Buffer.contents buf
+
 (* SDG: same fields as S; prints the model-side digest of the whole run (kernel cross-check) *)
 let run_socket_digest (f : string array) : string =
   let role = if f.(2) = "s" then Server else Client in
@@ -58,7 +87,7 @@ let run_socket_digest (f : string array) : string =
 
 let () =
   let handlers : (string * (string array -> string)) list ref = ref [
-    ("S", run_socket); ("SDG", run_socket_digest); ("CC", run_closecode); ("HP", run_header_parse); ("HF", run_header_format);
+    ("S", run_socket); ("SDG", run_socket_digest); ("FS", run_framesocket); ("CC", run_closecode); ("HP", run_header_parse); ("HF", run_header_format);
     ("FF", run_frame_format); ("U8", run_utf8); ("MK", run_mask) ] in
   handlers := !handlers @ Driver_hs.handlers;
   try
